@@ -125,9 +125,9 @@ impl Parser {
                         if (repeat_number.max(0) as usize).saturating_mul(repeat_rec.len()).saturating_add(marco_rec.len()) > MAX_MACRO_LEN {
                             return Err(ParserError::UnsupportedDCSSequence("macro definition exceeds the macro space".to_string()).into());
                         }
-                        #[cfg(icy_engine_verif)]
-                        crate::verif::tick((repeat_number.max(0) as u64).saturating_mul(repeat_rec.len() as u64 + 1));
                         if !repeat_rec.is_empty() {
+                            #[cfg(icy_engine_verif)]
+                            crate::verif::tick((repeat_number.max(0) as u64).saturating_mul(repeat_rec.len() as u64 + 1));
                             if !repeat_rec.is_empty() {
                 (0..repeat_number).for_each(|_| marco_rec.push_str(&repeat_rec));
             }
@@ -176,9 +176,9 @@ impl Parser {
             if (repeat_number.max(0) as usize).saturating_mul(repeat_rec.len()).saturating_add(marco_rec.len()) > MAX_MACRO_LEN {
                 return Err(ParserError::UnsupportedDCSSequence("macro definition exceeds the macro space".to_string()).into());
             }
-            #[cfg(icy_engine_verif)]
-            crate::verif::tick((repeat_number.max(0) as u64).saturating_mul(repeat_rec.len() as u64 + 1));
             if !repeat_rec.is_empty() {
+                #[cfg(icy_engine_verif)]
+                crate::verif::tick((repeat_number.max(0) as u64).saturating_mul(repeat_rec.len() as u64 + 1));
                 (0..repeat_number).for_each(|_| marco_rec.push_str(&repeat_rec));
             }
         }
